@@ -380,6 +380,14 @@ class C18:
         idx = [i + 1 for i, e in enumerate(raw) if e['ev'] and (e['ev'].get('op') == 'rename' and e['ev'].get('t') == 'out')]
         return [self.make_plan(wl, fmt, [dict(mode='run', f=None, raw_idx=i)], 'after-save') for i in idx if i < len(raw)]
 
+    def plan_foreign_file(self, wl, fmt):
+        """the directory already holds the finished results `r.<fmt>` of an earlier, different simulation: this one is
+        moved to `r_1.<fmt>` by fix_output_filenames; it is killed after its first save and resumed from `r_1.<fmt>`.
+        The earlier file belongs to nobody in the specification: every modification of it is an event no action matches."""
+        p = self.make_plan(wl, fmt, [dict(mode='run', f=None, after_save=1)], 'foreign-file')
+        p.update(shifted=True, ref0=None)
+        return p
+
     def plans_sigint(self, wl, fmt, stride=1):
         """SIGINT (Ctrl-C / scancel --signal=INT) delivered at a recorded system call: handle_abort_signal sets a
         flag, the run continues to the next checkpoint, saves and ends with KeyboardInterrupt; then resume"""
@@ -559,6 +567,11 @@ class C18:
             if plan['id'] not in self.verdicts:
                 rej = getattr(self, 'rejected', {}).get(plan['id'], {})
                 ne = rej.get('next_event') or {}
+                if ne.get('f') == 'other' or ne.get('t') == 'other' or res.get('foreign_changed'):
+                    # the simulation modified a file that is not one of its two files
+                    ctx.violation(dict(kind='foreign-file-touched'),
+                                  dict(detail, rejected=rej, foreign_changed=res.get('foreign_changed')))
+                    continue
                 if ne.get('op') == 'exc' and res['incs']:
                     # the real run aborted where the spec says it continues
                     ctx.violation(dict(kind='run-aborted', exception=summ.get('status'),
@@ -576,6 +589,8 @@ class C18:
                         break
                 continue
             ctx.trace_ok(1)
+            if res.get('foreign_changed'):
+                ctx.violation(dict(kind='foreign-file-touched'), dict(detail, foreign_changed=res['foreign_changed']))
             viol = self.verdicts[plan['id']]
             res['viol'] = viol
             if 'RealNoCompleteFile' in viol:
@@ -687,9 +702,9 @@ def check(ctx):
             replay(ctx, t)
             return
         if quick:
-            wls = ['dummy', 'dummy_meas', 'dmrg2', 'dmrg2_min1', 'tebd_trunc', 'expmpo']
+            wls = ['dummy', 'dummy_meas', 'dmrg2', 'dmrg1m', 'dmrg2_min1', 'tebd_trunc', 'expmpo']
             pairs = [('dummy', 'pkl'), ('dummy_meas', 'h5'), ('dmrg2', 'pkl'), ('dmrg2_min1', 'pkl'), ('tebd_trunc', 'pkl'),
-                     ('expmpo', 'pkl')]
+                     ('expmpo', 'pkl'), ('dmrg1m', 'pkl')]
         else:
             wls = list(WL)
             pairs = [(w, f) for w in WL for f in ('pkl', 'h5')]
@@ -727,6 +742,8 @@ def check(ctx):
             # ExpMPOEvolution uses the generic TimeEvolutionAlgorithm.evolve loop (N_steps = 2 evolve_step per run)
             plans += t.plans_from_dump('expmpo', 'pkl', 2, 0)
             plans += t.plans_after_saves('expmpo', 'pkl')
+            plans += t.plans_from_dump('dmrg1m', 'pkl', 2, 0)       # single-site DMRG with an active mixer
+            plans.append(t.plan_foreign_file('dummy', 'pkl'))
             sig = t.plans_sigint('dummy', 'pkl')
             plans += [sig[0], t.rnd.choice(sig[1:])]
         else:
@@ -743,6 +760,8 @@ def check(ctx):
                                     ('tebd', 'pkl', 1), ('tdvp', 'h5', 5)]:
                 plans += t.plans_all_calls(wl, fmt, stride)
             plans += t.plans_sigint('dummy', 'pkl', 1) + t.plans_sigint('dmrg2', 'h5', 25) + t.plans_sigint('tebd', 'pkl', 4)
+            plans += [t.plan_foreign_file(wl, fmt) for wl, fmt in [('dummy', 'pkl'), ('dummy_meas', 'h5'), ('dmrg2', 'pkl'),
+                                                                    ('tebd', 'h5')]]
         for _, (dump_path, d, c) in t.mc_dumps.items():
             shutil.rmtree(d, ignore_errors=True)
         t.notes['plans'] = len(plans)
